@@ -264,10 +264,15 @@ def run_moved(rng):
     use_map = rng.random() < 0.35
     mapped = {}
     ordinary = []     # changed lines in git's default colour (or none), neighbours of the specially coloured ones
+    subproject_first = rng.random() < 0.12
     for _ in range(nl):
         kind = rng.choice('-+ ')
         text = 'L%d_' % len(body) + gen.rand_text(rng, 40, allow_empty=False, tabs_ok=rng.random() < 0.3)
-        if kind != ' ' and rng.random() < 0.6:
+        if subproject_first and not body:
+            # a removed gitlink without its '+' counterpart (submodule removed or moved): delta holds the line back and
+            # shows it later as an ordinary hunk line - with the colours it came with
+            kind, text = '-', 'Subproject commit ' + ''.join(rng.choice('0123456789abcdef') for _ in range(40))
+        if kind != ' ' and (rng.random() < 0.6 or (subproject_first and not body)):
             sgr, fg, bg, attrs = rng.choice(RENDITIONS)
             is_default = (fg, bg, set(attrs)) == ((('idx', 1), None, set()) if kind == '-' else (('idx', 2), None, set()))
             layout = rng.choice(['whole', 'marker-sep'])
